@@ -131,7 +131,7 @@ PROPS = {
         "design_ref": "§5, §7 C04",
         "technique": "deterministic simulation: the real compio-executor (hook H4) on shuttle coroutines whose every context switch is drawn from the run's choice sequence; generated programs of spawn / self-wake / cross-thread wake / join / cancel / detach / handle drop / panic / early executor teardown with handle and waker operations on other logical threads; instrumented futures and outputs against per-task plans, quiescence and deadlock oracles; choice-sequence minimisation and replay",
         "tiers": {
-            "quick": {"runs": 600_000, "time_limit_s": 60},
+            "quick": {"runs": 320_000, "time_limit_s": 60},
             "thorough": {"runs": 60_000_000, "time_limit_s": 1500},
         },
         "rule": T_RULE,
@@ -153,7 +153,7 @@ PROPS = {
         "design_ref": "§5, §7 C03 layer 1",
         "technique": "deterministic simulation: the real compio-executor (hook H4) on shuttle coroutines with decider-driven context switches; 1-3 waker threads deliver concurrent and repeated cross-thread wakes (wake / wake_by_ref / clone) through a 1-2 entry cross-thread queue while the home thread ticks and parks; event-then-wake discipline, completion-by-quiescence and deadlock oracles; choice-sequence minimisation and replay",
         "tiers": {
-            "quick": {"runs": 400_000, "time_limit_s": 60},
+            "quick": {"runs": 110_000, "time_limit_s": 60},
             "thorough": {"runs": 40_000_000, "time_limit_s": 1500},
         },
         "rule": T_RULE,
